@@ -450,6 +450,50 @@ func (g *Gen) LaunchScenario() []Op {
 			reportAt[at] = append(reportAt[at], mk(p, id, false))
 		}
 	}
+	// a shard that was fully reporting gains a member that never reports (a membership change seen through a report
+	// at a higher version) while another shard is still incomplete: the launch is NOT complete when that other shard
+	// completes, and the deadline must still fire
+	if len(pl) >= 2 && g.R.Intn(3) == 0 {
+		i := g.R.Intn(len(pl))
+		j := (i + 1 + g.R.Intn(len(pl)-1)) % len(pl)
+		reportAt = map[int][]Op{}
+		for _, id := range sortedIDs(pl[i].reps) {
+			at := 1 + g.R.Intn(4)
+			reportAt[at] = append(reportAt[at], mk(pl[i], id, false))
+		}
+		grown := map[uint64]string{}
+		for k, v := range pl[i].reps {
+			grown[k] = v
+		}
+		newID := uint64(100*int(pl[i].s) + 9)
+		grown[newID] = g.Addrs[g.R.Intn(len(g.Addrs))]
+		g.Hist[pl[i].s] = append(g.Hist[pl[i].s], Membership{2, grown})
+		big := placed{pl[i].s, grown}
+		first := sortedIDs(pl[i].reps)[g.R.Intn(len(pl[i].reps))]
+		up := mk(big, first, false)
+		up.Infos[0].Cci = 2
+		at := 6 + g.R.Intn(3)
+		reportAt[at] = append(reportAt[at], up)
+		for k, p := range pl {
+			if k == i {
+				continue
+			}
+			for _, id := range sortedIDs(p.reps) {
+				at := 1 + g.R.Intn(20)
+				if k == j && id == sortedIDs(p.reps)[0] {
+					at = 10 + g.R.Intn(12) // the report that completes shard j, after shard i grew
+				}
+				reportAt[at] = append(reportAt[at], mk(p, id, false))
+			}
+		}
+		if g.R.Intn(2) == 0 {
+			// the new member does report in the end: sometimes in time, sometimes too late
+			at := 12 + g.R.Intn(16)
+			late := mk(big, newID, false)
+			late.Infos[0].Cci = 2
+			reportAt[at] = append(reportAt[at], late)
+		}
+	}
 	if stray != nil {
 		for _, id := range sortedIDs(stray.reps) {
 			at := 1 + g.R.Intn(20)
